@@ -35,6 +35,15 @@ def declare(ct):
     F("VHCT", partition="ref:Partition", iteration="int", nu="real", rho="real", delta="real", bound="real", c="real",
       c1="real", curr_node="ref:$N", path="list[ref:$N]", late=("curr_node", "path"))
 
+    F("DOO", partition="ref:Partition", iteration="int", n="int", curr_node="ref:$N", late=("curr_node", "delta"))
+    F("SOO", partition="ref:Partition", iteration="int", n="int", h_max="int", curr_node="ref?:$N")
+    F("StoSOO", partition="ref:Partition", iteration="int", n="int", k="real", delta="real", h_max="int", b_max="float",
+      max_b_node_ind="int", max_b_node_h="int", late=("b_max", "max_b_node_ind", "max_b_node_h"))
+    F("SequOOL", partition="ref:Partition", iteration="int", h_max="int", curr_depth="int", loc="int", open_loc="int",
+      chosen="list[ref:$N]", budget="int", curr_node="ref:$N", late=("budget", "curr_node"))
+    F("StroquOOL", partition="ref:Partition", iteration="int", h_max="int", p_max="int", curr_depth="int", curr_p="int",
+      chosen="list[ref:$N]", time_stamp="int", validation_p="int", candidate="list[ref?:$N]", curr_loc="int", curr_node="ref:$N",
+      eval="bool", max_node="ref?:$N", end="bool")
     # ---- synthetic objectives
     for c in ("Garland", "DoubleSine", "DifficultFunc", "Ackley", "Ackley_Normalized", "Himmelblau", "Himmelblau_Normalized",
               "Rastrigin", "Rastrigin_Normalized", "Cexample", "Perturbed_Garland", "Perturbed_DoubleSine"):
